@@ -1087,7 +1087,8 @@ static ConstQueryFilterRef CreateQueryFilterFromExpressionAux(Lexer & lexer, con
          const LexerToken & fieldNameTok = localToks[1];
          MRETURN_ON_ERROR(fieldNameTok.ParseFieldName(fieldName, valueIndexInField, NULL));
 
-         return MaybeNegate(isNegated, sef.CreateSubexpression(fieldNameTok, valueIndexInField, firstTok, LexerToken(), explicitCastType, LexerToken(), true));
+         // Note that we pass the parsed field-name (without any ":index" suffix) on to the factory
+         return MaybeNegate(isNegated, sef.CreateSubexpression(LexerToken(fieldName, fieldNameTok.WasQuoted()), valueIndexInField, firstTok, LexerToken(), explicitCastType, LexerToken(), true));
       }
       break;
 
@@ -1105,7 +1106,9 @@ static ConstQueryFilterRef CreateQueryFilterFromExpressionAux(Lexer & lexer, con
          const uint32 valueType = valTok.GetValueStringType(explicitCastType);
          if (valueType == B_ANY_TYPE) return B_ERROR("Unable to determine type of value-token at end of subexpression");
 
-         return MaybeNegate(isNegated, sef.CreateSubexpression(fieldNameTok, valueIndexInField, infixOpTok, valTok, valueType, optDefaultValue, true));
+         // Note that we pass the parsed field-name (without any ":index" or "|default" suffix) on to the factory
+         const bool isWhat = (fieldNameTok.GetToken() == LTOKEN_WHAT);
+         return MaybeNegate(isNegated, sef.CreateSubexpression(isWhat ? fieldNameTok : LexerToken(fieldName, fieldNameTok.WasQuoted()), valueIndexInField, infixOpTok, valTok, valueType, optDefaultValue, true));
       }
    }
 
